@@ -31,7 +31,7 @@ def real_director(src, disable=()):
   from pytype.directors import directors
   from pytype.errors import errors
   st = directors.parse_src(src, (3, 12))
-  log = errors.ErrorLog(src)
+  log = errors.VmErrorLog(None, src)   # what context.Context creates (pretty printer unused here)
   try:
     return directors.Director(st, log, FILENAME, list(disable)), None, log
   except Exception as e:  # pylint: disable=broad-except
